@@ -223,7 +223,11 @@ func HandleMessages(startTime time.Time, reader io.Reader, writer io.Writer, con
 	writer.Write([]byte("18 seconds ahead of UTC\n\n"))
 
 	messageChan := make(chan rtcm.Message, 2)
-	go DisplayMessages(messageChan, writer)
+	displayFinished := make(chan struct{})
+	go func() {
+		DisplayMessages(messageChan, writer)
+		close(displayFinished)
+	}()
 
 	channels := make([]chan rtcm.Message, 0)
 	channels = append(channels, messageChan)
@@ -231,6 +235,10 @@ func HandleMessages(startTime time.Time, reader io.Reader, writer io.Writer, con
 	appCore.HandleMessagesUntilEOF(startTime, bufferedReader)
 
 	close(messageChan)
+
+	// Wait until the display goroutine has written the messages that are
+	// still in the channel.  The caller may exit as soon as this returns.
+	<-displayFinished
 }
 
 // DisplayMessages receives messages from the given channel, produces a
